@@ -862,6 +862,7 @@ std::string plan_to_text(const Plan& p) {
   snprintf(b, sizeof b, "seed %llu\nrunseed %llu\nlocale %d\nreuse %d\n", (unsigned long long)p.seed, (unsigned long long)p.runseed, p.locale, p.reuse); o += b;
   if (p.fill) { snprintf(b, sizeof b, "fill %d\n", p.fill); o += b; }
   if (p.perturb) o += "perturb 1\n";
+  if (p.errno_mode) o += "errno_mode 1\n";
   snprintf(b, sizeof b, "sched policy=%d param=%d seed=%llu\n", p.sched.policy, p.sched.param, (unsigned long long)p.sched.seed); o += b;
   if (!p.sched.task_events_hint.empty()) {
     o += "hint";
@@ -997,6 +998,7 @@ bool plan_from_text(const std::string& txt, Plan& p, std::string* err) {
     else if (line.rfind("reuse ", 0) == 0) p.reuse = atoi(line.c_str() + 6);
     else if (line.rfind("fill ", 0) == 0) p.fill = atoi(line.c_str() + 5);
     else if (line.rfind("perturb ", 0) == 0) p.perturb = atoi(line.c_str() + 8);
+    else if (line.rfind("errno_mode ", 0) == 0) p.errno_mode = atoi(line.c_str() + 11);
     else if (line.rfind("sched ", 0) == 0) {
       for (auto& kv : tokenize(line)) {
         if (kv.first == "policy") p.sched.policy = atoi(kv.second.c_str());
